@@ -830,9 +830,10 @@ class Domain(AbstractRuleMatching):
         assert url.raw_host is not None
         if not all(self.re_part.fullmatch(x) for x in url.raw_host.split(".")):
             raise ValueError("Domain not valid")
-        if url.port == 80:
+        # The default port depends on the scheme of the request, see match().
+        if url.explicit_port is None:
             return url.raw_host
-        return f"{url.raw_host}:{url.port}"
+        return f"{url.raw_host}:{url.explicit_port}"
 
     async def match(self, request: Request) -> bool:
         url = request._message.url
@@ -846,19 +847,23 @@ class Domain(AbstractRuleMatching):
             host = request.headers.get(hdrs.HOST)
         if not host:
             return False
-        return self.match_domain(host)
+        return self.match_domain(host, 443 if request.scheme == "https" else 80)
 
-    @staticmethod
-    def _normalize_host(host: str) -> str:
+    def _normalize_host(self, host: str, default_port: int) -> str:
         # Bring the Host header into the form produced by validation().
         name, sep, port = host.lower().rpartition(":")
-        if not (sep and port.isascii() and port.isdigit()):
-            return host.lower().rstrip(".")
+        if not (sep and port.isascii() and (port.isdigit() or not port)):
+            name, port = host.lower(), ""
         name = name.rstrip(".")
-        return name if int(port) == 80 else f"{name}:{int(port)}"
+        # An absent or empty port is the default port of the scheme:
+        # spell it out only if the configured domain does so.
+        number = int(port) if port else default_port
+        if number == default_port and ":" not in self._domain:
+            return name
+        return f"{name}:{number}"
 
-    def match_domain(self, host: str) -> bool:
-        return self._normalize_host(host) == self._domain
+    def match_domain(self, host: str, default_port: int = 80) -> bool:
+        return self._normalize_host(host, default_port) == self._domain
 
     def get_info(self) -> _InfoDict:
         return {"domain": self._domain}
@@ -876,8 +881,9 @@ class MaskDomain(Domain):
     def canonical(self) -> str:
         return self._mask.pattern
 
-    def match_domain(self, host: str) -> bool:
-        return self._mask.fullmatch(self._normalize_host(host)) is not None
+    def match_domain(self, host: str, default_port: int = 80) -> bool:
+        host = self._normalize_host(host, default_port)
+        return self._mask.fullmatch(host) is not None
 
 
 class MatchedSubAppResource(PrefixedSubAppResource):
